@@ -34,6 +34,11 @@ pub enum Strategy {
     /// taken to be in a failed wait iteration), otherwise the next enabled thread in cyclic tid order; at step `s` of
     /// `forced` the given thread is taken instead
     Np { forced: Vec<(u64, String)>, yield_after: u32, loads: BTreeMap<String, u32>, run_len: u32 },
+    /// maximal-lag schedule: the threads in `lazy` run only while every other enabled thread is *idle* (has performed
+    /// `limit` scheduling points in a row without any thread making progress — progress = a store / read-modify-write on an
+    /// atomic or a slot access; lock, notify and loads are not); among the non-idle threads non-preemptive round robin.
+    /// A lazy handler thus falls as far behind as the protocol lets it; a lazy producer publishes only when all else waits.
+    Lazy { lazy: Vec<String>, limit: u32, idle: BTreeMap<String, u32> },
 }
 
 fn splitmix(s: &mut u64) -> u64 {
@@ -66,6 +71,35 @@ impl Strategy {
                         loads.insert(c.clone(), 0);
                     }
                     // next enabled thread after `c` in cyclic order
+                    if let Some(n) = enabled.iter().find(|t| t.as_str() > c.as_str()) {
+                        return Some(n.clone());
+                    }
+                }
+                enabled.first().cloned()
+            }
+            Strategy::Lazy { lazy, limit, idle } => {
+                let is_idle = |t: &String| idle.get(t).copied().unwrap_or(0) >= *limit;
+                let next_after = |set: &Vec<&String>| -> Option<String> {
+                    if let Some(c) = current {
+                        if set.iter().any(|t| *t == c) {
+                            return Some(c.clone());
+                        }
+                        if let Some(n) = set.iter().find(|t| t.as_str() > c.as_str()) {
+                            return Some((*n).clone());
+                        }
+                    }
+                    set.first().map(|t| (*t).clone())
+                };
+                let eager: Vec<&String> = enabled.iter().filter(|t| !lazy.contains(t) && !is_idle(t)).collect();
+                if let Some(t) = next_after(&eager) {
+                    return Some(t);
+                }
+                let lz: Vec<&String> = enabled.iter().filter(|t| lazy.contains(t) && !is_idle(t)).collect();
+                if let Some(t) = next_after(&lz) {
+                    return Some(t);
+                }
+                // everybody idle: keep polling in cyclic order (ends by budget if nothing can move)
+                if let Some(c) = current {
                     if let Some(n) = enabled.iter().find(|t| t.as_str() > c.as_str()) {
                         return Some(n.clone());
                     }
@@ -250,6 +284,25 @@ impl Sched {
                 let is_load = matches!(p, Pending::Sync(Ev::Load { .. }) | Pending::Sync(Ev::LoadBool { .. }));
                 let e = loads.entry(u.clone()).or_insert(0);
                 *e = if is_load { *e + 1 } else { 0 };
+            }
+            if let Strategy::Lazy { idle, .. } = &mut inner.strategy {
+                let progress = matches!(
+                    p,
+                    Pending::Plain(_)
+                        | Pending::Start
+                        | Pending::Sync(Ev::Store { .. })
+                        | Pending::Sync(Ev::StoreBool { .. })
+                        | Pending::Sync(Ev::Cas { .. })
+                        | Pending::Sync(Ev::FetchAdd { .. })
+                        | Pending::Sync(Ev::FetchOr { .. })
+                        | Pending::Sync(Ev::FetchAnd { .. })
+                        | Pending::Sync(Ev::Rmw { .. })
+                );
+                if progress {
+                    idle.clear();
+                } else {
+                    *idle.entry(u.clone()).or_insert(0) += 1;
+                }
             }
             let mut runs = true;
             let text = match &p {
